@@ -276,4 +276,13 @@ static void gen(Emitter &em, const Options &opt) {
     }
 }
 
-int main(int argc, char **argv) { return run_main(argc, argv, gen, exec_case); }
+int main(int argc, char **argv) {
+    // Every case here is microseconds of work, but LeakSanitizer's stop-the-world pass and a heavily loaded machine can
+    // stall a worker for seconds; no buffer member contains a loop that could spin, so a generous per-case limit
+    // (instead of the runner's 4 s default) only removes false "hang" verdicts.  An explicit --timeout still wins.
+    std::vector<char *> args(argv, argv + argc);
+    static char flag[] = "--timeout", val[] = "30";
+    bool given = false; for (int i = 1; i < argc; ++i) if (std::string(argv[i]) == "--timeout") given = true;
+    if (!given) { args.push_back(flag); args.push_back(val); }
+    return run_main((int)args.size(), args.data(), gen, exec_case);
+}
